@@ -90,3 +90,38 @@ func shortKey(t *sym.Term) string {
 	}
 	return k
 }
+
+// rootBlock returns the block of the root function in which the event (or the
+// outermost inlined call leading to it) sits.
+func rootBlock(ev *sym.Event) *ssa.BasicBlock {
+	site := ev.Site
+	for f := ev.Frame; f != nil && f.Parent != nil; f = f.Parent {
+		site = f.Site
+	}
+	if site == nil {
+		return nil
+	}
+	return site.Block()
+}
+
+// reaches reports CFG reachability between two blocks of fr's function.
+func reaches(from, to int, fr *sym.Frame) bool {
+	blocks := fr.Fn.Blocks
+	seen := make([]bool, len(blocks))
+	stack := []int{from}
+	for len(stack) > 0 {
+		b := stack[len(stack)-1]
+		stack = stack[:len(stack)-1]
+		if b == to {
+			return true
+		}
+		if seen[b] {
+			continue
+		}
+		seen[b] = true
+		for _, s := range blocks[b].Succs {
+			stack = append(stack, s.Index)
+		}
+	}
+	return false
+}
